@@ -76,6 +76,7 @@ def run(cx, out):
         facts = cx.facts(cfg)
         unit(out, facts)
         check_all(out, facts, cfg)
+        check_levels(out, facts, cfg)
         check_tracker(out, facts)
         check_callgraph(out, facts)
     # premises: the depth events reach the tracker through every provided wrapper (C08 R08.1 forwarding), and the in-place
@@ -125,6 +126,10 @@ def check_all(out, facts, cfg, floors=True):
                             delegate = any(ty.startswith(h + '<') for h in HEAP) or e[3] in ('decode_wrapped',)
                             if child_generic and not delegate and d < 1 and e[3] in ('decode', 'decode_into', 'skip'):
                                 bad.append('child of generic type %s is decoded without a preceding successful descend_ref' % ty)
+                            elif child_generic and not delegate and d > 1 and e[3] in ('decode', 'decode_into', 'skip'):
+                                bad.append('child of generic type %s is decoded under %d descends: one container level costs more than one unit of depth' % (ty, d))
+                            elif any(ty.startswith(h + '<') for h in HEAP) and d > 0 and spath in HEAP and mentions_param(ty, params):
+                                bad.append('delegates to the decoder of %s under its own descend: one container level costs more than one unit of depth' % ty)
                         elif e[0] == 'KERNEL':
                             pass
                 out.ob('R11.2', key + '/descends', not bad, '; '.join(sorted(set(bad))), f['loc'], sample={'term': sym.tstr(ta)[:240]})
@@ -150,10 +155,84 @@ def check_all(out, facts, cfg, floors=True):
                         d -= 1
                     elif e[0] == 'dec' and d < 1:
                         bad.append('element decoded outside descend/ascend')
+                    elif e[0] == 'dec' and d > 1:
+                        bad.append('element decoded under %d descends' % d)
             out.ob('R11.2', 'helper:items/descends [%s]' % cfg, not bad and any(e[0] == 'dec' for e in events(t)),
                    '; '.join(set(bad)) or 'no element decode found', kf['loc'])
         else:
             out.fail('R11.2', 'helper:items [%s]' % cfg, 'kernel function not found (anchor missing)', '-')
+
+
+def check_levels(out, facts, cfg):
+    """R11.2 levels: what one pointer-like container costs, followed through the associated type and the delegation chain:
+    the decoder the blanket impl reaches for `Box<T>`, `Rc<T>`, `Arc<T>` (own decode_wrapped or the trait default applied to
+    the impl's `Wrapped` type) decodes `T` under exactly one descend in total"""
+    default = None
+    own = {}
+    for f, kind in decoder_fns(facts):
+        if f['method'] != 'decode_wrapped':
+            continue
+        if f['ctx'] == 'trait_default':
+            default = f
+        elif f.get('impl'):
+            own[f['impl']] = f
+    wrappers = {}
+    for im in facts.impls:
+        if tname(im.get('trait') or '') != 'WrapperTypeDecode' or (im.get('self_ty') or {}).get('k') != 'adt':
+            continue
+        w = [it for it in im.get('items', []) if it['name'] == 'Wrapped']
+        wrappers[im['self_ty']['path']] = (im, own.get(im['path']), w[0]['value'] if w else None)
+    memo = {}
+
+    def of_type(ty, seen):
+        head = ty.split('<')[0]
+        if head in wrappers:
+            return of_wrapper(head, seen)
+        if head in HEAP:
+            return {1}      # sequence and tree containers: exactly one, by /descends and helper:items above
+        return {0}
+
+    def of_wrapper(head, seen):
+        if head in memo:
+            return memo[head]
+        if head in seen:
+            return {99}
+        im, f, wrapped = wrappers[head]
+        f = f or default
+        if f is None:
+            return {-1}
+        t, v, ev = wire.infer_decoder_fn(facts, f)
+        ta = abstract_helpers(t, KERNEL)
+        res = set()
+        for p in paths(ta):
+            d = 0
+            for e in p:
+                if e[0] == 'DESC':
+                    d += 1
+                elif e[0] == 'ASC':
+                    d -= 1
+                elif e[0] == 'dec' and e[3] in ('decode', 'decode_into', 'skip'):
+                    ty = e[1]
+                    if ty.startswith('<Self as') and ty.endswith('::Wrapped'):
+                        ty = wrapped or ty
+                    res |= {d + l for l in of_type(ty, seen | {head})}
+                elif e[0] == 'KERNEL':
+                    res.add(d + 1)
+        memo[head] = res
+        return res
+    for head in sorted(wrappers):
+        lv = of_wrapper(head, set())
+        im = wrappers[head][0]
+        out.ob('R11.2', 'levels:%s [%s]' % (head.split('::')[-1], cfg), lv == {1},
+               'decoding %s<T> costs %s unit(s) of depth for its one level of nesting (own descends plus those of the decoder it '
+               'delegates to / of its Wrapped type %s)' % (head.split('::')[-1], sorted(lv), wrappers[head][2]), im['loc'])
+    out.floor('R11.2', 'pointer-like wrappers with a decoder [%s]' % cfg, len(wrappers), 3)
+    # the blanket impl reaches decode_wrapped without a descend of its own
+    for f, kind in decoder_fns(facts):
+        if kind == 'method' and (f.get('self_ty') or {}).get('k') == 'param' and f['method'] in ('decode', 'decode_into', 'skip'):
+            t, v, ev = wire.infer_decoder_fn(facts, f)
+            n = [e for e in events(abstract_helpers(t, KERNEL)) if e[0] == 'DESC']
+            out.ob('R11.2', '%s/no-own-descend [%s]' % (fkey(f), cfg), not n, 'the blanket decoder descends before delegating to decode_wrapped', f['loc'])
 
 
 def _impl_params(facts, f):
